@@ -72,6 +72,13 @@ def castTo (ty : String) (v : PyVal) : Option PyVal :=
   | "frozenset", .list xs | "frozenset", .tuple xs | "frozenset", .set xs | "frozenset", .frozenset xs => some (.frozenset xs)
   | "list", .str s => some (.list (s.toList.map fun c => .str (String.singleton c)))
   | "tuple", .str s => some (.tuple (s.toList.map fun c => .str (String.singleton c)))
+  | "set", .str s => some (.set ((s.toList.map fun c => PyVal.str (String.singleton c)).eraseDups))
+  | "frozenset", .str s => some (.frozenset ((s.toList.map fun c => PyVal.str (String.singleton c)).eraseDups))
+  | "dict", .str "" | "dict", .bytes "" => some (.dict [])
+  | "list", .bytes "" => some (.list [])
+  | "tuple", .bytes "" => some (.tuple [])
+  | "set", .bytes "" => some (.set [])
+  | "frozenset", .bytes "" => some (.frozenset [])
   | "dict", .dict kvs => some (.dict kvs)
   | "dict", .list [] | "dict", .tuple [] | "dict", .set [] | "dict", .frozenset [] => some (.dict [])
   | "list", .dict kvs => some (.list (kvs.map (·.1)))
